@@ -368,7 +368,15 @@ class Gen:
             sup = ""
             subs = [x["name"] for x in local_entities if e["name"] in x["supers"]]
             if subs and r.random() < 0.6:
-                sup = " %sSUPERTYPE OF (%s)" % (r.choice(["", "ABSTRACT "]), ("ONEOF (%s)" % ", ".join(subs)) if len(subs) > 1 else subs[0])
+                if len(subs) == 1:
+                    sx = subs[0]
+                elif len(subs) == 2 or r.random() < 0.5:
+                    sx = r.choice(["ONEOF (%s)", "%s"]) % (", ".join(subs)) if r.random() < 0.5 else (" %s " % r.choice(["ANDOR", "AND"])).join(subs)
+                    if "," in sx and not sx.startswith("ONEOF"):
+                        sx = "ONEOF (%s)" % sx
+                else:
+                    sx = "ONEOF (%s, %s %s %s)" % (subs[0], subs[1], r.choice(["ANDOR", "AND"]), " ANDOR ".join(subs[2:]))
+                sup = " %sSUPERTYPE OF (%s)" % (r.choice(["", "ABSTRACT "]), sx)
             L.append("ENTITY %s%s%s;" % (e["name"], sup, (" SUBTYPE OF (%s)" % ", ".join(e["supers"])) if e["supers"] else ""))
             for n, t in e["attrs"]:
                 L.append("  %s : %s%s;" % (n, r.choice(["", "", "OPTIONAL "]), self.type_text(t)))
@@ -377,8 +385,24 @@ class Gen:
                 n = self.fresh("d")
                 t = r.choice(SIMPLE)
                 dl.append("  %s : %s := %s;" % (n, t, self.expr(self.base_kind(t), scope, 1)))
+            if e["supers"] and r.random() < 0.3:
+                # a derived attribute that redeclares an inherited explicit one
+                sup_e = [x for x in self.entities if x["name"] == e["supers"][0]][0]
+                cands = [(n_, t_) for n_, t_ in sup_e["attrs"] if not isinstance(t_, tuple)]
+                if cands:
+                    n_, t_ = r.choice(cands)
+                    dl.append("  SELF\\%s.%s : %s := %s;" % (sup_e["name"], n_, t_, self.expr(self.base_kind(t_), [x for x in scope if x[0] != n_], 1)))
             if dl:
                 L += ["DERIVE"] + dl
+            # INVERSE: over an entity-valued attribute of another local entity that points at this one
+            inv = []
+            for other in local_entities:
+                for an, at in other["attrs"]:
+                    tgt = at[1] if isinstance(at, tuple) and at[0] == "ent" else (at[4][1] if isinstance(at, tuple) and at[0] == "agg" and isinstance(at[4], tuple) and at[4][0] == "ent" else None)
+                    if tgt == e["name"] and len(inv) < 2 and r.random() < 0.6:
+                        inv.append("  %s : %s%s FOR %s;" % (self.fresh("inv"), r.choice(["", "SET OF ", "BAG [0:?] OF ", "SET [0:1] OF "]), other["name"], an))
+            if inv:
+                L += ["INVERSE"] + inv
             simple_attrs = [n for n, t in e["attrs"] if not isinstance(t, tuple)]
             if simple_attrs and r.random() < 0.3:
                 L += ["UNIQUE", "  ur1 : %s;" % ", ".join(r.sample(simple_attrs, min(len(simple_attrs), r.randint(1, 2))))]
